@@ -393,6 +393,15 @@ pub fn targeted() -> Vec<String> {
     for s in ["~é(x)", "~a😀(x)", "#é(x)", "@é(x)", "~é{}(x)", "~😀{1%min}(x)", "@a{}(é", "@&a{}(é)", "@é{} @&é{}(n)"] {
         v.push(s.to_string());
     }
+    // every construct of the diagnostics catalogue (C07), alone and inside a small recipe, so that each diagnostic path
+    // (its message building, labels, hints, debug assertions on severity) is executed by every guarded operation
+    for e in crate::mon::c07::CATALOGUE {
+        let (t, _, _) = crate::mon::c07::unmark(e.template);
+        v.push(t.clone());
+        if !e.block {
+            v.push(format!("Mix @flour{{1%kg}} then {t} and #pan{{}}.\n\nNext ~{{5%min}} {t}\n"));
+        }
+    }
     // modes
     for m in ["all", "components", "steps", "text", "bogus", ""] {
         v.push(format!(">> [mode]: {m}\n@a{{1}} text #b ~c{{1%min}}\n\n> para\n\n>> [mode]: steps\n@a @zz"));
